@@ -7,6 +7,8 @@ import (
 	"go/types"
 	"os"
 	"strings"
+
+	"golang.org/x/tools/go/cfg"
 )
 
 func init() {
@@ -136,14 +138,128 @@ func runC08(c *Ctx) {
 					if !isSel || se.Sel.Name != "Do" || len(c.Args) != 1 || !strings.HasSuffix(typeName(info.TypeOf(se.X)), "sync.Once") {
 						return false
 					}
+					if strings.HasSuffix(exprKey(c.Args[0]), ".startBatchWriter") {
+						return true // the start function itself, as a method value
+					}
 					body, _ := callableBody(p, info, c.Args[0])
 					return body != nil && containsMatch(body, isStartCall)
 				}
+				// a COMPLETED flag is as good as having waited: an atomic.Bool of the writer that is set
+				// to true only after a start call returned (stored - possibly deferred - behind the start
+				// on every path, never swapped or compare-and-swapped): whoever reads it as true knows
+				// the start has completed
+				flagField := func(c *ast.CallExpr, method string) types.Object {
+					se, ok := ast.Unparen(c.Fun).(*ast.SelectorExpr)
+					if !ok || se.Sel.Name != method || !strings.HasSuffix(typeName(info.TypeOf(se.X)), "atomic.Bool") {
+						return nil
+					}
+					fs, ok := ast.Unparen(se.X).(*ast.SelectorExpr)
+					if !ok {
+						return nil
+					}
+					return info.Uses[fs.Sel]
+				}
+				completed := map[types.Object]bool{}
+				isCompletedFlag := func(fld types.Object) bool {
+					if v, ok := completed[fld]; ok {
+						return v
+					}
+					okFlag, nStores := true, 0
+					for _, gd := range p.AllFuncDecls(pkg) {
+						if gd.Body == nil {
+							continue
+						}
+						var gf *FuncCFG
+						ast.Inspect(gd.Body, func(n ast.Node) bool {
+							c, isCall := n.(*ast.CallExpr)
+							if !isCall {
+								return true
+							}
+							for _, m := range []string{"Swap", "CompareAndSwap"} {
+								if flagField(c, m) == fld {
+									okFlag = false
+								}
+							}
+							if flagField(c, "Store") != fld || len(c.Args) != 1 || exprKey(c.Args[0]) != "true" {
+								return true
+							}
+							nStores++
+							if gf == nil {
+								gf = newFuncCFGPlain(p, info, gd.Body, funcKey(pkg, gd))
+							}
+							pt, found := gf.PointOf(c)
+							if !found {
+								okFlag = false
+								return true
+							}
+							if _, isDefer := gf.nodeAt(pt).(*ast.DeferStmt); isDefer {
+								// runs at the exit: every path from the defer statement to the exit passes a start call
+								if _, leak := gf.PathToExitAvoiding(pt, isStartCall); leak {
+									okFlag = false
+								}
+							} else if _, early := gf.PathFromEntryAvoiding(pt, isStartCall, nil); early {
+								okFlag = false
+							}
+							return true
+						})
+					}
+					completed[fld] = okFlag && nStores > 0
+					return completed[fld]
+				}
+				completedEdge := func(g *FuncCFG) func(Edge) bool {
+					done := map[Edge]bool{}
+					g.forEachEdgeFact(func(e Edge, b *cfg.Block, ft fact) {
+						if c, ok := ast.Unparen(ft.Atom).(*ast.CallExpr); ok && ft.Pol {
+							if fld := flagField(c, "Load"); fld != nil && isCompletedFlag(fld) {
+								done[e] = true
+							}
+						}
+					})
+					return func(e Edge) bool { return done[e] }
+				}
+				// a helper of the package every path through which passes the start (or reads a completed
+				// flag as true) is a barrier as well
+				helperBarrier := map[*ast.FuncDecl]bool{}
+				isBarrier2 := func(n ast.Node) bool {
+					if isBarrier(n) {
+						return true
+					}
+					c, ok := n.(*ast.CallExpr)
+					if !ok {
+						return false
+					}
+					fn := staticCallee(info, c)
+					if fn == nil {
+						return false
+					}
+					hd := p.decls().byFunc[fn.Origin()]
+					if hd == nil || hd.Body == nil || p.decls().infoOf[hd] != info {
+						return false
+					}
+					if v, seen := helperBarrier[hd]; seen {
+						return v
+					}
+					helperBarrier[hd] = false
+					hf := newFuncCFGPlain(p, info, hd.Body, funcKey(pkg, hd))
+					_, through := hf.reach(hf.entry(), &searchOpts{AvoidNode: isBarrier, AvoidEdge: completedEdge(hf)}, func(pt Point, atExit bool) bool { return atExit })
+					helperBarrier[hd] = !through
+					return !through
+				}
 				unbarred := ""
 				var uw []string
+				doneEdge := completedEdge(f)
+				// the start function's own look at the flag (under its mutex, spliced in when the start is
+				// called through a helper) is not a read made by Enqueue
+				var startFrom, startTo token.Pos
+				if sd := p.FuncDecl(pkg, "BatchedWriter", "startBatchWriter"); sd != nil {
+					startFrom, startTo = sd.Pos(), sd.End()
+				}
 				for _, e := range runTrue {
 					condPt := Point{e.From, len(e.From.Nodes) - 1}
-					if w, found := f.PathFromEntryAvoiding(condPt, isBarrier, nil); found {
+					if cp := f.nodeAt(condPt).Pos(); cp >= startFrom && cp < startTo {
+						continue
+					}
+					if w, found := f.PathFromEntryAvoiding(condPt, isBarrier2, doneEdge); found {
 						unbarred, uw = f.PosOf(condPt), w
 					}
 				}
